@@ -69,6 +69,9 @@ structure Node where
   /-- kind `sub` only: how many leading scalar entries / reference fields `from_dao` takes from the object rebuilt
   through the temporary parent DAO (`_build_base_kwargs_for_alternative_parent`) -/
   pf : Nat × Nat := (0, 0)
+  /-- kind `sub` only: the object's class lies two or more levels below the alternatively mapped class (its direct
+  base DAO is not the DAO of the mapping) -/
+  deep : Bool := false
   deriving Repr, DecidableEq, Inhabited
 
 abbrev Heap := List Node
@@ -266,17 +269,22 @@ def applyDonor (out : Heap) (j i : Nat) : Heap :=
 def staleParent (out : Heap) (choice : List (Nat × Nat)) : Heap :=
   choice.foldl (fun o c => applyDonor o c.1 c.2) out
 
-def isSub (out : Heap) (j : Nat) : Bool :=
+/-- `deepToo = false`: today only a DAO whose DIRECT base is the alternatively mapped DAO gets a temporary parent -/
+def isSubD (deepToo : Bool) (out : Heap) (j : Nat) : Bool :=
   match out[j]? with
-  | some n => n.kind == .sub
+  | some n => n.kind == .sub && (deepToo || !n.deep)
   | none => false
 
-def subSlots (out : Heap) : List Nat := (List.range out.length).filter (isSub out)
+def isSub (out : Heap) (j : Nat) : Bool := isSubD false out j
 
-/-- same alternatively mapped base DAO (second table of the chain) -/
+def subSlotsD (deepToo : Bool) (out : Heap) : List Nat := (List.range out.length).filter (isSubD deepToo out)
+
+def subSlots (out : Heap) : List Nat := subSlotsD false out
+
+/-- below the same alternatively mapped base DAO (the chains above the own table are suffixes of one another) -/
 def sameBase (out : Heap) (j i : Nat) : Bool :=
   match out[j]?, out[i]? with
-  | some a, some b => a.tabs.drop 1 == b.tabs.drop 1
+  | some a, some b => (a.tabs.drop 1).isSuffixOf (b.tabs.drop 1) || (b.tabs.drop 1).isSuffixOf (a.tabs.drop 1)
   | _, _ => false
 
 /-- every admissible outcome: each `sub` slot keeps its own parent or takes an earlier one's (in slot order) -/
@@ -291,6 +299,31 @@ def staleChoices (out : Heap) : List Nat → List Nat → List (List (Nat × Nat
 
 /-- trigger of F-C04-2: two `sub` objects below the same alternatively mapped base are rebuilt with one state -/
 def trigStaleParent (out : Heap) : Bool := (staleChoices out [] (subSlots out)).length > 1
+
+/-! ### F-C04-3: `from_dao` looks for the alternatively mapped parent among the DIRECT bases only
+
+`to_dao` scans the whole MRO for the nearest alternatively mapped DAO ancestor, `_build_base_kwargs_for_alternative_parent`
+only inspects `self.__class__.__bases__[0]`. For a class two or more levels below an alternatively mapped class no
+parent object is rebuilt, the constructor arguments that only the mapping knows under another name (`pf`) are missing,
+`__init__` raises `TypeError`, and the fall-back assigns the remaining attributes one by one: the object comes back
+WITHOUT those attributes. Deterministic; applied to the result heap. -/
+
+/-- `k=v` ↦ `k=?` (what the harness prints for an attribute the object does not have) -/
+def lostEntry (e : String) : String := (e.splitOn "=").headD "" ++ "=?"
+
+def dropParent (n : Node) : Node :=
+  if n.deep && n.pf != (0, 0) then
+    { n with
+      lab := ⟨n.lab.cls, joinScal (((splitScal n.lab.scal).take n.pf.1).map lostEntry
+          ++ (splitScal n.lab.scal).drop n.pf.1
+          ++ (if n.pf.2 == 0 then [] else [s!"!missing={n.pf.2}"]))⟩,
+      refs := (n.refs.take n.pf.2).map (fun _ => Ref.none) ++ n.refs.drop n.pf.2 }
+  else n
+
+def dropDeepParent (out : Heap) : Heap := out.map dropParent
+
+/-- trigger of F-C04-3 -/
+def trigDeep (out : Heap) : Bool := out.any fun n => n.deep && n.pf != (0, 0)
 
 /-! ### Specification: isomorphism of rooted graphs -/
 
